@@ -1,4 +1,5 @@
 import NgVerif.Proofs.Coords
+import NgVerif.Proofs.CsegOwn
 /-
   C03 — Writing then reading a chunk returns the same array for lossless encodings; positions off
   the chunk grid are rejected. (compressed_segmentation round trip: C02; JPEG shape: C10.)
@@ -34,6 +35,16 @@ theorem raw_round_trip (itemsize : Nat) (hk : 0 < itemsize) (vals : List Nat)
     (hv : ∀ v ∈ vals, v < 256 ^ itemsize) :
     Raw.decode itemsize vals.length (Raw.encode itemsize vals) = .ok vals :=
   Raw.decode_encode itemsize hk vals hv
+
+/-- compressed_segmentation: the package's own decoder inverts its encoder, for every chunk shape,
+    block size, label width and label array (so the codec hypothesis of the history theorem below
+    is met by this encoding as well as by raw) -/
+theorem cseg_round_trip (itemsize : Nat) (hi : itemsize = 4 ∨ itemsize = 8) (s : Cseg.Shape)
+    (bk : Cseg.Blk3) (d : List Nat) (hbx : 0 < bk.bx) (hby : 0 < bk.by') (hbz : 0 < bk.bz)
+    (hvals : ∀ v ∈ d, v < 2 ^ (8 * itemsize)) (hd : d.length = s.c * s.z * s.y * s.x)
+    (file : Bytes) (h : Cseg.encode itemsize s bk d = some file) :
+    Cseg.implDecode itemsize s bk file = .ok d :=
+  Cseg.implDecode_encode itemsize hi s bk d hbx hby hbz hvals hd file h
 
 /-- For EVERY history of writes (any keys, any positions, valid or not, with overwrites) through a
     store that behaves like a map, and every lossless codec: reading `k` returns the array of the
